@@ -1033,6 +1033,17 @@ theorem generated_fromCtyValue_eq (S : Sched) (ty : Ty) (p : Payload) (T : GoTy)
       GoctyFnsTie.er (fromCtyP S [] ty p T) :=
   D18bTie.fromCtyValue_tie S ty p T tv hc hk hwf
 
+/-- … and with marks: the value carries the marks `ms` (its own or pushed down from its containers).  A marked scalar, list,
+set or map panics in the accessor its decoder calls first, a marked tuple or object hands its marks to the members
+(`val.Index` / `val.GetAttr`) — in the translated source exactly as in the model (`marked_can_panic`,
+`schedule_matters_marked_counterexample` are therefore statements about the source text too) -/
+theorem generated_fromCtyValue_eq_marked (S : Sched) (ms : List String) (ty : Ty) (p : Payload) (T : GoTy) (tv : GoVal)
+    (hc : T.base.isCval = false) (hk : kindOK ty p = true)
+    (hwf : ∀ etys cs, ty = .tuple etys → p = .seq cs → cs.length = etys.length) :
+    GoctyFnsTie.er (Generated.GoctyShapeFns.fromCtyValue (D18bTie.recFor S ty) (S 0) ⟨ty, pushMarks ms p⟩ T tv) =
+      GoctyFnsTie.er (fromCtyP S ms ty p T) :=
+  D18bTie.fromCtyValue_tie_marked S ms ty p T tv hc hk hwf
+
 /-- … and its three guards are the model's, for ANY recursive decoder, with the marks pushed down from the containers:
 a `cty.Value` pointee receives the value as it is (exactly, unknown / null / marked alike); null goes through the last
 pointer; an unknown value is refused -/
@@ -1098,6 +1109,10 @@ example : kindOK (.list .number) (.seq [.n (Num.ofInt 1), .null]) = true ∧ (Go
   ⟨rfl, rfl⟩
 example (S : Sched) : Generated.GoctyShapeFns.fromCtyValue (D18bTie.recS S) (S 0) ⟨.string, .unk .unref⟩ (.ptr .str) .nilPtr =
     .err "value must be known" := by rfl
+
+example (S : Sched) : GoctyFnsTie.er (Generated.GoctyShapeFns.fromCtyValue (D18bTie.recS S) (S 0)
+    ⟨.tuple [.string], pushMarks ["m"] (.seq [.s "a"])⟩ (.struct [""] [.str]) (zeroVal (.struct [""] [.str]))) = .panic "" := by rfl
+example : kindOK (.tuple [.string]) (.seq [.s "a"]) = true := rfl
 
 end C18
 end CtyModel
